@@ -531,6 +531,75 @@ struct Runner {
 		return s.randomState(true);
 	}
 
+#if VH_UTIL
+	// Zero-utility sweep (C01, C12, C02): utility() = 0 is a legal answer for arg-max resolution (ties: leftmost).
+	// For every utilitarian region with a REGION among its candidates: candidates' heads and leaf candidates answer
+	// 0 or a palette value in every combination (up to 5 candidates), then `utilize` / `changeTo` of the region from
+	// outside and from inside.  All-zero makes the leftmost candidate win, also when it is a nested region whose
+	// own sub-states must then still be resolved.
+	void sweepZeroUtility(uint64_t seed, int index) {
+		Script& s = script();
+		std::vector<int> regions;
+		for (int i = 0; i < STATE_COUNT; ++i) {
+			if (STATES[i].strategy != 3 || STATES[i].width < 2 || STATES[i].width > 5) continue;
+			bool anyRegion = false, underRandom = belowRandomRegion(i);
+			for (int c = i + 1, k = 0; k < STATES[i].width; ++k) { if (STATES[c].width != 0) anyRegion = true; c += STATES[c].size; }
+			if (anyRegion && !underRandom && i > 0) regions.push_back(i);
+		}
+		if (regions.empty() || VH_MANUAL) return;
+		s.prng = Prng{seed * 3333331ull + 7};
+		s.knobs = Knobs{};
+		s.sweeping = true;
+		s.forcedUtility.assign(static_cast<size_t>(STATE_COUNT), -1.0f);
+		Out& o = out();
+		o << "scenario " << index << "\n" << "shape " << SHAPE_TEXT << "\n";
+		configLine();
+		for (int k = 0; k < 2; ++k) {
+			o << "op " << k << " new\n";
+			s.firstActivation = true; construct(k, k ? 0xFF : 0x00); s.firstActivation = false;
+			o << "end\n"; snap(k);
+		}
+		long resolutions = 0;
+		const int k = 0;
+		for (int region : regions) {
+			const int w = STATES[region].width;
+			std::vector<int> subs;
+			for (int c = region + 1, j = 0; j < w; ++j) { subs.push_back(c); c += STATES[c].size; }
+			for (unsigned mask = 0; mask < (1u << w); ++mask) {
+				for (int j = 0; j < w; ++j)
+					s.forcedUtility[static_cast<size_t>(subs[static_cast<size_t>(j)])] = (mask >> j & 1) ? 0.5f : 0.0f;
+				for (int variant = 0; variant < 3; ++variant) {
+					if (variant != 2) {				// from outside: leave the region first
+						int other = 0;
+						for (int t = 1; t < STATE_COUNT; ++t)
+							if (!(t >= region && t < region + STATES[region].size) && !(region >= t && region < t + STATES[t].size)) { other = t; break; }
+						if (other) {
+							o << "op " << k << " imm C " << other << " -\n";
+							apiRequest(k, true, 0, other, -1);
+							o << "end\n"; snap(k);
+						}
+					}
+					const int kind = variant == 1 ? 0 : 4;		// changeTo / utilize
+					o << "op " << k << " imm " << std::string(1, KIND_LETTER[kind]) << " " << region << " -\n";
+					apiRequest(k, true, kind, region, -1);
+					o << "end\n"; snap(k);
+					o << "op " << k << " update\n";
+					enterCall(k); { ApiScope scope; inst(k).update(); }
+					o << "end\n"; snap(k);
+					++resolutions;
+				}
+				if (o.buf.size() > (1u << 20)) o.flush();
+			}
+			for (int j = 0; j < w; ++j) s.forcedUtility[static_cast<size_t>(subs[static_cast<size_t>(j)])] = -1.0f;
+		}
+		s.forcedUtility.clear();
+		s.sweeping = false;
+		for (int j = 0; j < 2; ++j) { o << "op " << j << " destroy\n"; destroy(j); o << "end\n"; }
+		o << "# stat zero_utility_sweep_resolutions=" << static_cast<long long>(resolutions) << "\n";
+		o.flush();
+	}
+#endif
+
 	void sweepBatches(uint64_t seed, int index, int budget) {
 		Script& s = script();
 		s.prng = Prng{seed * 5555557ull + 31};
@@ -844,6 +913,10 @@ inline int run(int argc, char** argv) {
 #endif
 	if (sweep > 0)
 		runner.sweepBatches(seed, scenarios + 1, sweep / 2);
+#if VH_UTIL
+	if (sweep > 0)
+		runner.sweepZeroUtility(seed, scenarios + 2);
+#endif
 	out() << "# stat assertion_hits=" << static_cast<long long>(g_assertionHits) << "\n";
 	out() << "# stat allocations_inside_api=" << static_cast<long long>(allocStats().inside) << "\n";
 	out() << "# stat allocations_by_harness=" << static_cast<long long>(allocStats().outside) << "\n";
